@@ -3,6 +3,7 @@ package props
 import (
 	"bytes"
 	"fmt"
+	"io"
 	"runtime/debug"
 	"sync"
 	"testing"
@@ -173,7 +174,15 @@ func TestC06(t *testing.T) {
 				src = bytes.NewReader(stream[len(wires[0]):])
 			}
 			for j := 1; j < k; j++ {
-				if _, err := diam.ReadMessage(src, ctx.Parser); err != nil {
+				mj, err := diam.ReadMessage(src, ctx.Parser)
+				if err != nil {
+					return err
+				}
+				// writes reuse pooled buffers as well: send the message just read and an answer to it
+				if _, err := mj.WriteTo(io.Discard); err != nil {
+					return err
+				}
+				if _, err := mj.Answer(2001).WriteTo(io.Discard); err != nil {
 					return err
 				}
 			}
